@@ -113,12 +113,18 @@ def minEntry : List (Nat × Int) → Option Nat × Int → Option Nat × Int
   | [], acc => acc
   | (d, l) :: es, (md, ml) => if l < ml then minEntry es (some d, l) else minEntry es (md, ml)
 
+/-- the hysteresis test shared by `NotifyLatencyChange` and `calcMinLatency`: `l` beats the
+current best by at least the tolerance (or the current best is below the tolerance). -/
+def ASet.better (s : ASet) (l : Int) : Bool :=
+  decide (l ≤ s.minLat) && (decide (s.minLat < s.tol) || decide (l ≤ s.minLat - s.tol))
+
+def ASet.setMin (s : ASet) (d : Option Nat) (l : Int) : ASet := { s with minD := d, minLat := l }
+
 /-- `calcMinLatency`. -/
 def ASet.calcMin (s : ASet) : ASet :=
   let r := minEntry s.entries (none, hour)
-  if s.minD = none then { s with minLat := r.2, minD := r.1 }
-  else if r.1.isSome ∧ r.2 ≤ s.minLat ∧ (s.minLat < s.tol ∨ r.2 ≤ s.minLat - s.tol) then
-    { s with minLat := r.2, minD := r.1 }
+  if s.minD = none then s.setMin r.1 r.2
+  else if r.1.isSome && s.better r.2 then s.setMin r.1 r.2
   else s
 
 /-- swap-with-last removal of node `d` from the entries slice. -/
@@ -130,42 +136,42 @@ def swapRemove (es : List (Nat × Int)) (d : Nat) : List (Nat × Int) :=
 def setLat (es : List (Nat × Int)) (d : Nat) (l : Int) : List (Nat × Int) :=
   es.map fun e => if e.1 = d then (e.1, l) else e
 
+def ASet.add (s : ASet) (d : Nat) : ASet := { s with entries := s.entries ++ [(d, 0)] }
+def ASet.remove (s : ASet) (d : Nat) : ASet := { s with entries := swapRemove s.entries d }
+def ASet.setEntryLat (s : ASet) (d : Nat) (l : Int) : ASet := { s with entries := setLat s.entries d l }
+
 /-- membership half of `NotifyLatencyChange`; second component: the callback fired, if any. -/
 def ASet.phase1 (s : ASet) (d : Nat) (alive : Bool) (lat : Option Int) : ASet × Option Bool :=
   if alive then
-    if s.has d then (s, none) else ({ s with entries := s.entries ++ [(d, 0)] }, none)
-  else
-    if s.has d then
-      let removedBest := s.minPolicy && lat.isNone && (s.minD == some d)
-      let s1 := { s with entries := swapRemove s.entries d }
-      if removedBest then
-        let s2 := ({ s1 with minD := none, minLat := hour }).calcMin
-        if s2.minD = none then (s2, some false) else (s2, none)
-      else (s1, none)
-    else (s, none)
+    if s.has d then (s, none) else (s.add d, none)
+  else if s.has d then
+    -- `removedBestWithoutLatency`
+    if s.minPolicy && lat.isNone && (s.minD == some d) then
+      let s2 := ((s.remove d).setMin none hour).calcMin
+      (s2, if s2.minD = none then some false else none)
+    else (s.remove d, none)
+  else (s, none)
+
+/-- the best-node update of the `hasLatency` branch (`bakLat` = best latency before). -/
+def ASet.reselect (s : ASet) (d : Nat) (alive : Bool) (l bakLat : Int) : ASet :=
+  if alive && s.better l then s.setMin (some d) l
+  else if s.minD = some d then
+    if !alive || decide (l > bakLat) then (s.setMin (if alive then some d else none) l).calcMin
+    else s.setMin (some d) l
+  else s
 
 /-- selection half of `NotifyLatencyChange`. -/
 def ASet.phase2 (s : ASet) (d : Nat) (alive : Bool) (lat : Option Int) : ASet × Option Bool :=
   match lat with
   | some raw =>
-    let bakD := s.minD
-    let bakLat := s.minLat
     let l := raw + s.offset d
-    let s1 : ASet := { s with entries := setLat s.entries d l }
-    let s2 : ASet :=
-      if alive ∧ l ≤ s1.minLat ∧ (s1.minLat < s1.tol ∨ l ≤ s1.minLat - s1.tol) then
-        { s1 with minLat := l, minD := some d }
-      else if s1.minD = some d then
-        let s3 := { s1 with minLat := l }
-        if !alive ∨ l > bakLat then
-          (if alive then s3 else { s3 with minD := none }).calcMin
-        else s3
-      else s1
-    if s2.minD = bakD then (s2, none)
-    else if s2.minD.isSome then (s2, if bakD.isNone then some true else none)
-    else (s2, some false)
+    let s2 := (s.setEntryLat d l).reselect d alive l s.minLat
+    (s2,
+      if s2.minD = s.minD then none
+      else if s2.minD.isSome then (if s.minD.isNone then some true else none)
+      else some false)
   | none =>
-    if alive ∧ s.minPolicy ∧ s.minD = none then ({ s with minD := some d }, some true)
+    if alive && s.minPolicy && s.minD.isNone then (s.setMin (some d) s.minLat, some true)
     else (s, none)
 
 def ASet.fire (s : ASet) : Option Bool → ASet
@@ -190,6 +196,27 @@ structure Node where
   tfail : Nat → Nat            -- `trafficFailCount[8]`
 
 def Node.fresh (addr : Nat) : Node := ⟨addr, fun _ => true, fun _ => 0, fun _ => 0⟩
+
+/-- `markUnavailableInternal(typ, force=true, isTraffic=true)`: dead, both counters at the traffic threshold. -/
+def Node.forced (nd : Node) (t : Typ) : Node :=
+  { nd with alive := upd nd.alive t.idx false,
+            fail := upd nd.fail t.idx (threshold t.isUdp true),
+            tfail := upd nd.tfail t.idx (threshold t.isUdp true) }
+
+/-- `markUnavailableInternal(typ, force=false, isTraffic)`: one counted failure. -/
+def Node.counted (nd : Node) (t : Typ) (traffic : Bool) : Node :=
+  let fail' := if traffic then nd.fail else upd nd.fail t.idx (nd.fail t.idx + 1)
+  let tfail' := if traffic then upd nd.tfail t.idx (nd.tfail t.idx + 1) else nd.tfail
+  let cnt := if traffic then tfail' t.idx else fail' t.idx
+  let alive := if cnt < threshold t.isUdp traffic then nd.alive t.idx else false
+  { nd with alive := upd nd.alive t.idx alive, fail := fail', tfail := tfail' }
+
+/-- `markAvailable` / `markAvailableTraffic` / `MarkAliveForReloadFallback`: alive, counters cleared. -/
+def Node.avail (nd : Node) (t : Typ) : Node :=
+  { nd with alive := upd nd.alive t.idx true, fail := upd nd.fail t.idx 0, tfail := upd nd.tfail t.idx 0 }
+
+/-- the head of `ReportAvailableTraffic`. -/
+def Node.clearTraffic (nd : Node) (t : Typ) : Node := { nd with tfail := upd nd.tfail t.idx 0 }
 
 /-- one tracked proxy address: address, consecutive count, last update time -/
 abbrev FailEntry := Nat × Nat × Nat
@@ -242,12 +269,9 @@ def World.setNode (w : World) (n : Nat) (nd : Node) : World := { w with nodes :=
 /-- `ReportUnavailableForced` = `markUnavailableInternal(typ, force=true, isTraffic=true)` + inform. -/
 def markForced (w : World) (n : Nat) (t : Typ) (o : Oracle) : World × List Out :=
   let nd := w.nodes n
-  let i := t.idx
-  let th := threshold t.isUdp true
-  let was := nd.alive i
-  let nd' := { nd with alive := upd nd.alive i false, fail := upd nd.fail i th, tfail := upd nd.tfail i th }
-  let r := notifyAll w.sets n i false o
-  ({ (w.setNode n nd') with sets := r.1 }, (if was then [Out.trans n t false] else []) ++ r.2)
+  let r := notifyAll w.sets n t.idx false o
+  ({ (w.setNode n (nd.forced t)) with sets := r.1 },
+    (if nd.alive t.idx then [Out.trans n t false] else []) ++ r.2)
 
 /-- `markUnavailableFromProxyFailure`: all six domains forced down (the back-off punishment that
 follows only changes latency penalties, which are oracle inputs here). -/
@@ -289,14 +313,10 @@ def markUnavail (w : World) (n : Nat) (t : Typ) (traffic : Bool) (o : Oracle) : 
   if w.suppressed then (w, []) else
   let nd := w.nodes n
   let i := t.idx
-  let th := threshold t.isUdp traffic
-  let fail' := if traffic then nd.fail else upd nd.fail i (nd.fail i + 1)
-  let tfail' := if traffic then upd nd.tfail i (nd.tfail i + 1) else nd.tfail
-  let cnt := if traffic then tfail' i else fail' i
-  let was := nd.alive i
-  let alive := if cnt < th then was else false
-  let w1 := w.setNode n { nd with alive := upd nd.alive i alive, fail := fail', tfail := tfail' }
-  let died := was && !alive
+  let nd' := nd.counted t traffic
+  let alive := nd'.alive i
+  let w1 := w.setNode n nd'
+  let died := nd.alive i && !alive
   -- `NotifyHealthCheckResult(typ, false, false)` on a true death: address tracking, escalation
   let r2 : World × List Out :=
     if died ∧ nd.addr ≠ 0 then
@@ -313,20 +333,16 @@ def markUnavail (w : World) (n : Nat) (t : Typ) (traffic : Bool) (o : Oracle) : 
 clears the address entry). -/
 def markAvail (w : World) (n : Nat) (t : Typ) (o : Oracle) : World × List Out :=
   let nd := w.nodes n
-  let i := t.idx
-  let was := nd.alive i
-  let nd' := { nd with alive := upd nd.alive i true, fail := upd nd.fail i 0, tfail := upd nd.tfail i 0 }
   let fs := if nd.addr ≠ 0 then failErase w.failures nd.addr else w.failures
-  let r := notifyAll w.sets n i true o
-  ({ (w.setNode n nd') with failures := fs, sets := r.1 },
-    (if was then [] else [Out.trans n t true]) ++ r.2)
+  let r := notifyAll w.sets n t.idx true o
+  ({ (w.setNode n (nd.avail t)) with failures := fs, sets := r.1 },
+    (if nd.alive t.idx then [] else [Out.trans n t true]) ++ r.2)
 
 /-- `ReportAvailableTraffic`. -/
 def trafficOk (w : World) (n : Nat) (t : Typ) (o : Oracle) : World × List Out :=
   let nd := w.nodes n
-  let i := t.idx
-  let w1 := w.setNode n { nd with tfail := upd nd.tfail i 0 }
-  if t.isData && !nd.alive i then markAvail w1 n t o else (w1, [])
+  let w1 := w.setNode n (nd.clearTraffic t)
+  if t.isData && !nd.alive t.idx then markAvail w1 n t o else (w1, [])
 
 /-! ### probes -/
 
@@ -366,18 +382,19 @@ structure Snapshot where
 /-- `ReloadHealthSnapshot`: availability is kept, counters are dropped. -/
 def reloadSnapshot (nd : Node) : Snapshot := ⟨fun i => nd.alive (canon i), fun _ => 0, fun _ => 0⟩
 
+def Node.restoreIdx (nd : Node) (s : Snapshot) (idx : Nat) : Node :=
+  { nd with alive := upd nd.alive (canon idx) (s.alive idx), fail := upd nd.fail idx (s.fail idx),
+            tfail := upd nd.tfail idx (s.tfail idx) }
+
 /-- One index of `RestoreHealthSnapshot` (store, then notify the groups, then the transition
 callback).  The real code stores all eight first and notifies afterwards; notifications do not read
 node state, so the fused order is observationally the same. -/
 def restoreIdx (w : World) (n : Nat) (s : Snapshot) (o : Oracle) (idx : Nat) : World × List Out :=
   let nd := w.nodes n
-  let c := canon idx
-  let was := nd.alive c
   let a := s.alive idx
-  let nd' := { nd with alive := upd nd.alive c a, fail := upd nd.fail idx (s.fail idx),
-                       tfail := upd nd.tfail idx (s.tfail idx) }
-  let r := notifyAll w.sets n c a o
-  ({ (w.setNode n nd') with sets := r.1 }, r.2 ++ (if was != a then [Out.trans n (typOfIdx idx) a] else []))
+  let r := notifyAll w.sets n (canon idx) a o
+  ({ (w.setNode n (nd.restoreIdx s idx)) with sets := r.1 },
+    r.2 ++ (if nd.alive (canon idx) != a then [Out.trans n (typOfIdx idx) a] else []))
 
 def restoreFrom : List Nat → World → Nat → Snapshot → Oracle → World × List Out
   | [], w, _, _, _ => (w, [])
@@ -392,11 +409,9 @@ def restore (w : World) (n : Nat) (s : Snapshot) (o : Oracle) : World × List Ou
 /-- `MarkAliveForReloadFallback`. -/
 def markAliveFallback (w : World) (n : Nat) (t : Typ) (o : Oracle) : World × List Out :=
   let nd := w.nodes n
-  let i := t.idx
-  let was := nd.alive i
-  let nd' := { nd with alive := upd nd.alive i true, fail := upd nd.fail i 0, tfail := upd nd.tfail i 0 }
-  let r := notifyAll w.sets n i true o
-  ({ (w.setNode n nd') with sets := r.1 }, r.2 ++ (if was then [] else [Out.trans n t true]))
+  let r := notifyAll w.sets n t.idx true o
+  ({ (w.setNode n (nd.avail t)) with sets := r.1 },
+    r.2 ++ (if nd.alive t.idx then [] else [Out.trans n t true]))
 
 def findSet (sets : List ASet) (g i : Nat) : Option ASet := sets.find? fun s => s.gid == g && s.idx == i
 
@@ -545,10 +560,10 @@ def tabNodesAux (l : List (Nat × Node)) (f : Nat → Node) : Nat → Node := fu
   | some e => e.2
   | none => f n
 
-def tabNodes (ids : List Nat) (f : Nat → Node) : Nat → Node :=
-  tabNodesAux (ids.map fun n => (n, (f n).tab)) f
+def nodeTable (ids : List Nat) (f : Nat → Node) : List (Nat × Node) := ids.map fun n => (n, (f n).tab)
 
-def World.tab (w : World) (ids : List Nat) : World := { w with nodes := tabNodes ids w.nodes }
+def World.tab (w : World) (ids : List Nat) : World :=
+  { w with nodes := tabNodesAux (nodeTable ids w.nodes) w.nodes }
 
 /-! ## kernel connectivity map (`control/connectivity.go`) -/
 
